@@ -218,7 +218,7 @@ def validate_batches(module, cfg, spec_dir, traces, shard=400, workers=None, tim
     Returns (stuck: {global index -> position}, stats dict).
     """
     shards = [(i, traces[i:i + shard]) for i in range(0, len(traces), shard)]
-    nproc = workers or min(16, max(1, len(shards)))
+    nproc = workers or min(10, max(1, len(shards)))
     stuck = {}
     stats = {"generated": 0, "distinct": 0, "tlc_runs": 0, "wall": 0.0}
 
@@ -227,7 +227,7 @@ def validate_batches(module, cfg, spec_dir, traces, shard=400, workers=None, tim
         fs = dict(files or {})
         fs[trace_file] = chunk
         r = run(module, cfg, spec_dir, files=fs, workers=1, timeout=timeout, coverage=False, dfs=dfs,
-                heap="3g")
+                heap="2g")
         if r.timed_out:
             raise TLCError("trace validation timed out (%s)" % module)
         done = r.tuples("DONE")
